@@ -207,6 +207,34 @@ def main(argv=None):
                 except Exception as ex:  # noqa
                     run.fail('open-ended-position-raises', 'open-ended segment: assigning/encoding/parsing raises',
                              version=v, segment=sname, index=i, exc=repr(ex))
+        # several positions of one segment assigned in ANY order each land at their own index
+        import itertools
+        for sname in open_segs[:6] + [s for s in ('PID', 'OBX', 'EVN') if s in lib.SEGMENTS]:
+            n = len(lib.SEGMENTS[sname][1]) if sname in lib.SEGMENTS else 0
+            is_open = sname in open_segs
+            idx_pool = [2, 7, 120] if is_open and n < 7 else ([2, min(n, 5), n] if n >= 3 else [1])
+            if is_open and n >= 7:
+                idx_pool = [2, n + 3, n + 40]
+            idx_pool = sorted(set(i for i in idx_pool if i >= 1))
+            for perm in itertools.permutations(idx_pool):
+                stats['multi_assign_orders'] = stats.get('multi_assign_orders', 0) + 1
+                try:
+                    seg = Segment(sname, version=v)
+                    for i in perm:
+                        setattr(seg, '%s_%d' % (sname, i), 'v%d' % i)
+                    out = seg.to_er7(ec)
+                    parts = out.split(F)
+                    got = {i: (parts[i] if i < len(parts) else None) for i in idx_pool}
+                    want = {i: 'v%d' % i for i in idx_pool}
+                    others = [p for j, p in enumerate(parts[1:], 1) if j not in idx_pool and p]
+                    if got != want or others:
+                        run.fail('multi-assign-position-wrong', 'values assigned to several positions of one segment (in '
+                                 'the order given) are not all encoded at their own indices', version=v, segment=sname,
+                                 order=list(perm), output=out[:300], open_ended=is_open)
+                except Exception as ex:  # noqa
+                    if not (isinstance(ex, Exception) and sname in ('PID', 'OBX', 'EVN') and False):
+                        run.fail('multi-assign-raises', 'assigning several positions of one segment raises', version=v,
+                                 segment=sname, order=list(perm), exc=repr(ex))
     run.log('implementation sweep done: %s, %d failures' % (stats, len(run.failures)))
     evaluated = S.run_model(run, cases, 'c02', per_file=700)
     run.log('model evaluated %d position texts (%s), %d disagreements'
